@@ -28,6 +28,18 @@ impl Tr for Impl { type A = u16; type N = u64; }
 /// implements Tr but has no TypeInfo itself
 pub struct ImplNoInfo;
 impl Tr for ImplNoInfo { type A = bool; type N = u32; }
+/// traits that take type arguments themselves
+pub trait Convert<X> { type Out; }
+impl<X> Convert<X> for u64 { type Out = Vec<X>; }
+pub trait Currency<B> { type Imbalance; }
+pub struct Native;
+impl<B> Currency<B> for Native { type Imbalance = Option<B>; }
+/// a trait that has TypeInfo as a supertrait
+pub trait Member: scale_info::TypeInfo + 'static {}
+impl Member for u8 {}
+impl Member for String {}
+pub trait Chain: scale_info::TypeInfo + 'static { type Balance; }
+impl Chain for Impl { type Balance = u128; }
 """
 
 
@@ -172,6 +184,17 @@ def positives(seed, n_seeded):
          attrs="#[scale_info(skip_type_params(T))]\n", variants_extra="    #[codec(skip)]\n    Skipped(T, NoInfoOf<T>),\n")
     # 9. encoded_as on a generic member whose parameter is declared HasCompact
     each("S", "<T: HasCompact>", "", [("#[codec(encoded_as = \"<T as HasCompact>::Type\")]\n    ", "T"), ("", "u8")], [("S<u32>", [("T", S)])], ["encoded_as_generic"])
+    # 10. a parameter that is reached only through the type arguments of the *trait* in a qualified path
+    each("S", "<T>", "", [("", "<u64 as Convert<T>>::Out"), ("", "u8")], [("S<u8>", [("T", S)]), ("S<String>", [("T", S)])], ["assoc", "qualified", "param_in_trait_arguments"])
+    each("S", "<T: Tr>", "", [("", "<Native as Currency<T::A>>::Imbalance")], [("S<Impl>", [("T", S)])], ["assoc", "qualified", "param_in_trait_arguments"])
+    each("S", "<T, U>", "", [("", "Vec<<u64 as Convert<(T, U)>>::Out>"), ("", "Option<<Native as Currency<U>>::Imbalance>")], [("S<u8, bool>", [("T", S), ("U", S)])], ["assoc", "qualified", "param_in_trait_arguments"])
+    # 11. explicit bounds that imply TypeInfo without naming it: through a supertrait, through a renamed import, through a path
+    each("S", "<T>", "", [("", "T")], [("S<u8>", [("T", S)]), ("S<String>", [("T", S)])], ["bounds_attr", "bounds_through_supertrait"], attrs="#[scale_info(bounds(T: Member))]\n")
+    each("S", "<T: Chain>", "", [("", "T::Balance"), ("", "T")], [("S<Impl>", [("T", S)])], ["bounds_attr", "bounds_through_supertrait", "assoc"],
+         attrs="#[scale_info(bounds(T: Chain, T::Balance: TypeInfo + 'static))]\n")
+    add("use scale_info::TypeInfo as Metadata;\n#[derive(TypeInfo)]\n#[scale_info(bounds(T: Metadata + 'static))]\npub struct S<T> {\n    a: T,\n    b: Vec<T>,\n}", [("S<u8>", [("T", S)])], ["bounds_attr", "bounds_through_renamed_import"])
+    each("S", "<T>", "", [("", "T")], [("S<u8>", [("T", S)])], ["bounds_attr", "bounds_through_path"], attrs="#[scale_info(bounds(T: ::scale_info::TypeInfo + 'static))]\n")
+    each("S", "<T>", "", [("", "T")], [("S<u8>", [("T", S)])], ["bounds_attr", "bounds_through_static_type_info"], attrs="#[scale_info(bounds(T: scale_info::StaticTypeInfo))]\n")
     # seeded decorations: combine a random subset of member kinds into bigger definitions
     pool = [("", "T"), ("", "Vec<T>"), ("", "Option<U>"), ("", "Box<(T, U)>"), ("", "[U; 2]"), ("", "PhantomData<V>"), ("", "BTreeMap<u8, T>"), ("#[codec(compact)]\n    ", "u32"),
             ("", "Option<Box<S<T, U, V>>>"), ("#[codec(skip)]\n    ", "NoInfo"), ("", "u64"), ("", "&'static str"), ("", "PhantomData<(T, V)>")]
@@ -330,6 +353,9 @@ def negatives(seed):
         add("derive/duplicate-attribute", dv("#[scale_info(%s)]\n#[scale_info(%s)]\n" % (a1, a2), item), dv("#[scale_info(%s)]\n" % twin_attr, item), ["duplicate", "differing-occurrences", "two-attributes"])
     for val in ["sometimes", "", "yes", "alway", "never ", "default,always"]:
         add("derive/invalid-capture-docs", dv("#[scale_info(capture_docs = \"%s\")]\n" % val), dv("#[scale_info(capture_docs = \"never\")]\n"), ["invalid-capture-docs"])
+    # values that are not one of the three words but whose Unicode upper- / lower-case mapping is (long s, Kelvin sign, dotted capital I, ligatures, full-width letters)
+    for val in ["alway\u017f", "ALWAY\u017f", "Alway\u017f", "ne\u1e7fer", "\u212aever", "defau\u217ct", "\uff41lways", "neve\u0280", "a\u0307lways", "default\u200b", "\u00c0lways", "de\ufb00ault", "never\u0000"]:
+        add("derive/invalid-capture-docs", dv("#[scale_info(capture_docs = %s)]\n" % json.dumps(val, ensure_ascii=False).replace("\\u0000", "\\0")), dv("#[scale_info(capture_docs = \"never\")]\n"), ["invalid-capture-docs", "non-ascii-value"])
     add("derive/invalid-capture-docs", dv("#[scale_info(capture_docs = always)]\n"), dv("#[scale_info(capture_docs = \"always\")]\n"), ["invalid-capture-docs", "not-a-string"])
     add("derive/invalid-capture-docs", dv("#[scale_info(capture_docs)]\n"), dv("#[scale_info(capture_docs = \"default\")]\n"), ["invalid-capture-docs", "no-value"])
     # bounds leaving a non-skipped parameter unbound
@@ -355,6 +381,25 @@ def negatives(seed):
         dv("#[scale_info(bounds(U: TypeInfo + 'static, T: TypeInfo + 'static))]\n", "pub struct S<T: %s, U> { a: T, b: U }" % B).replace("S<u8>", "S<u8, u8>"), ["bounds-missing-param", "inline-bound", "other-param"])
     add("derive/bounds-missing-param", dv("#[scale_info(bounds(Option<T>: TypeInfo + 'static))]\n", "pub struct S<T: %s> { a: Option<T> }" % B), dv("#[scale_info(bounds(Option<T>: TypeInfo + 'static, T: TypeInfo + 'static))]\n", "pub struct S<T: %s> { a: Option<T> }" % B), ["bounds-missing-param", "inline-bound", "only-container"])
     add("derive/bounds-missing-param", dv("#[scale_info(bounds(Vec<T>: TypeInfo + 'static))]\n"), dv("#[scale_info(bounds(Vec<T>: TypeInfo + 'static, T: TypeInfo + 'static))]\n"), ["bounds-missing-param", "only-container"])
+    # generic parameter lists in every legal order: const parameters before type parameters, lifetimes first, defaults
+    for gens, inst, unbound in [("const N: usize, T: %s" % B, "S<3, u8>", "T"), ("'a, const N: usize, T: %s" % B, "S<'static, 3, u8>", "T"), ("T: %s, const N: usize, U: %s" % (B, B), "S<u8, 3, u8>", "U"),
+                                ("const N: usize, const M: usize, T: %s" % B, "S<1, 2, u8>", "T"), ("const N: usize, T: %s, U: %s" % (B, B), "S<3, u8, u8>", "U"), ("const N: usize, T: %s = u8" % B, "S<3>", "T")]:
+        names = [g.strip().split(":")[0].replace("const ", "").strip() for g in gens.split(", ")]
+        members = []
+        for nm in names:
+            if nm.startswith("'"):
+                members.append("r%d: &%s u8" % (len(members), nm))
+            elif nm in ("N", "M"):
+                members.append("k%d: [u8; %s]" % (len(members), nm))
+            else:
+                members.append("m%d: %s" % (len(members), nm))
+        item = "pub struct S<%s> { %s }" % (gens, ", ".join(members))
+        tys = [nm for nm in names if not nm.startswith("'") and nm not in ("N", "M")]
+        lts = [nm for nm in names if nm.startswith("'")]
+        full = ", ".join(["%s: 'static" % l for l in lts] + ["%s: TypeInfo + 'static" % t for t in tys])
+        part = ", ".join(["%s: 'static" % l for l in lts] + ["%s: TypeInfo + 'static" % t for t in tys if t != unbound])
+        add("derive/bounds-missing-param", dv("#[scale_info(bounds(%s))]\n" % part, item).replace("S<u8>", inst), dv("#[scale_info(bounds(%s))]\n" % full, item).replace("S<u8>", inst),
+            ["bounds-missing-param", "inline-bound", "const-before-type"])
     return out
 
 
